@@ -519,6 +519,30 @@ def rule_valueobj(prog: Program, classes: Optional[List[str]] = None) -> List[In
                                 f"{dn_} reads {hit}, which {lazy[hit[0]]}() fills in later: the result depends on which properties were read before (not an equivalence relation over time)" if hit
                                 else f"{dn_} reads only fields fixed at construction", mm_[1].where()))
 
+        # HASHOVERRIDE: a subclass that defines its own __hash__ while its __eq__ falls back to an ancestor's
+        # cross-type equality (isinstance(other, <Ancestor>)) must hash exactly like the ancestor: otherwise it is
+        # equal to sibling instances with a different hash
+        own_hash = ci.methods.get("__hash__")
+        if own_hash is not None:
+            for anc in ci.mro()[1:]:
+                a_eq, a_hash = anc.methods.get("__eq__"), anc.methods.get("__hash__")
+                if a_eq is None or a_hash is None:
+                    continue
+                cross = any(isinstance(c_, ast.Call) and call_name(c_) == "isinstance" and len(c_.args) == 2 and short(c_.args[1]) == anc.name for c_ in walk_own(a_eq.node))
+                own_eq = ci.methods.get("__eq__")
+                falls_back = own_eq is None or any(isinstance(c_, ast.Call) and isinstance(c_.func, ast.Attribute) and c_.func.attr == "__eq__" and isinstance(c_.func.value, ast.Call) and call_name(c_.func.value) == "super" for c_ in walk_own(own_eq.node))
+                if not (cross and falls_back):
+                    continue
+                def _ret(fn):
+                    rr = [r.value for r in walk_own(fn.node) if isinstance(r, ast.Return) and r.value is not None]
+                    return ast.dump(rr[0], annotate_fields=False) if len(rr) == 1 else None
+                delegates = any(isinstance(c_, ast.Call) and isinstance(c_.func, ast.Attribute) and c_.func.attr == "__hash__" and isinstance(c_.func.value, ast.Call) and call_name(c_.func.value) == "super" for c_ in walk_own(own_hash.node))
+                same = delegates or (_ret(own_hash) is not None and _ret(own_hash) == _ret(a_hash))
+                out.append(Instance("R-VALUEOBJ", f"{ci.qual}#HASHOVERRIDE:{anc.name}", OK if same else BAD,
+                                    f"__hash__ agrees with {anc.name}.__hash__" if same else
+                                    f"{ci.name} compares equal to any {anc.name} with the same fields ({anc.name}.__eq__ tests isinstance(other, {anc.name})) but hashes `{short(next((r.value for r in walk_own(own_hash.node) if isinstance(r, ast.Return) and r.value is not None), own_hash.node), 40)}` instead of what {anc.name}.__hash__ hashes: equal values land in different dict slots", own_hash.where()))
+                break
+
         # PICKLEKEYS
         gs = _own_or_inherited(ci, "__getstate__")
         ss = _own_or_inherited(ci, "__setstate__")
